@@ -40,6 +40,10 @@ def run(ctx):
     from .. import tlc
     r = tlc.run("FakeTrxMC.tla", "MC_FakeTrxPower.cfg", workers=8, timeout=3000)
     ctx.require_ok("MC FakeTrxMC power/clock (BTS+child, MS+child; all POWERON/POWEROFF/tune/SETFH sequences)", r)
+    # "POWEROFF forgets all queued bursts" also while the clock thread is inside a tick:
+    # the line-level schedules of POWEROFF racing one tick (machinery of C03)
+    from . import c03
+    c03.schedules(ctx, only="off")
     traces = [session(ctx, "s%d" % k) for k in range(ctx.pick(150, 4000))]
     for t in traces:
         ctx.count()
